@@ -196,7 +196,7 @@ def part_formatters(c, drv, kconst):
     for b, d in zip(fbits, dd[len(dbits):]):
         dl.append("DL F %s %08x" % (d, b))
     lines += dl
-    # assumptions of C20_double_fits / C20_float_fits, tested on every delivered decomposition
+    # assumptions of C20_double_fits_partial / C20_float_fits_partial, tested on every delivered decomposition
     for l in dl:
         p = l.split()
         if len(p) == 6:
